@@ -26,6 +26,16 @@ def gen_binary(tier, rng):
             b = {"poly": rand_poly(rng, shape=s2, names=names)}
             if rng.random() < 0.5:
                 a, b = b, a
+        if rng.random() < 0.12:
+            # a list operand whose entries are polynomials over DIFFERENT name tuples of equal length (q0 next to q1, (q0, q2) next to
+            # (q1, q10)) and plain numbers: the entries have to be brought onto common indeterminates before they form an array
+            k = rng.choice([2, 3])
+            pools = rng.choice([[["q0"], ["q1"], ["q2"]], [["q0", "q2"], ["q1", "q10"], ["q0", "q1"]], [["q10"], ["q2"], ["q0"]]])
+            ents = [{"poly": rand_poly(rng, shape=(), names=pools[j % len(pools)], maxterms=2)} if rng.random() < 0.8 else {"num": rng.choice([-1, 2, 3])}
+                    for j in range(k)]
+            lst = {"polylist": ents}
+            other = {"poly": rand_poly(rng, shape=rng.choice([(), (k,), (2, k)]))}
+            a, b = (lst, other) if rng.random() < 0.5 else (other, lst)
         yield {"a": a, "b": b, "op": rng.choice(["add", "sub", "mul"]), "via": rng.choice(["operator", "numpoly", "numpy"])}
     # coefficient types the compiled kernels do not handle (the pure-Python paths run), operands with several terms in
     # shared indeterminates so that different pairs of terms meet in the same monomial of a product
